@@ -2,6 +2,7 @@
 //! Usage: vfs-verif <property> <quick|thorough> --seed N --out FILE [--findings FILE] [--only IDX --tag TAG] [--scale F]
 //! The binary never prints verdicts on stdout (the library itself prints there); the driver does.
 
+mod asyncside;
 mod cfg;
 mod engine;
 mod errmon;
@@ -15,6 +16,7 @@ mod prepop;
 mod props;
 mod report;
 mod rng;
+mod sched;
 mod snapshot;
 
 use std::collections::BTreeSet;
